@@ -373,12 +373,13 @@ pub fn harnesses() -> Vec<HarnessDef> {
   let mut add = |id: &'static str, props: Vec<&'static str>, about: &'static str, bounds: fn(bool) -> String, f: Box<dyn Fn(bool) + Send + Sync>| {
     v.push(HarnessDef { id, props, about, bounds, f, budget_quick: 2_000_000, budget_thorough: 20_000_000, thorough_only: false, sampled: false });
   };
+  // (the thread-safe source with the producer's event interleaved at the waiter's yield points is also C10's "no lost wake-up")
   fn b(t: bool) -> String {
     format!("scripts of 0..{} symbolic items then complete / error / neither; a poll optionally before every event and after the last", if t { 4 } else { 3 })
   }
   add("c14_to_future", vec!["C14"], "to_future: resolves as documented (Empty / item / MultipleValues / error), becomes ready once the source has terminated, no lost wake-up", b, Box::new(|t| c14_to_future(if t { 4 } else { 3 })));
   add("c14_to_stream", vec!["C14"], "to_stream: yields every item and the error in order, then ends; no lost wake-up", b, Box::new(|t| c14_to_stream(if t { 4 } else { 3 })));
   add("c14_complete_status", vec!["C14"], "complete_status flags and the wait_for_end future; the producer's event interleaved at the waiter's hooked yield point (between flag check and waker registration)", b, Box::new(|t| c14_complete_status(if t { 4 } else { 3 }, false)));
-  add("c14_complete_status_threads", vec!["C14"], "same over a thread-safe source", b, Box::new(|t| c14_complete_status(if t { 4 } else { 3 }, true)));
+  add("c14_complete_status_threads", vec!["C14", "C10"], "same over a thread-safe source", b, Box::new(|t| c14_complete_status(if t { 4 } else { 3 }, true)));
   v
 }
